@@ -486,7 +486,7 @@ var allOps32 = []string{
 	"NextValue", "PreviousValue", "NextAbsentValue", "PreviousAbsentValue", "ToArray", "ChecksumEq", "ChecksumRT",
 	"Ser", "Load", "WriteFail", "Freeze", "FrozenRT", "LoadLegal", "DetachAll", "Scribble",
 	"Ser64", "Load64",
-	"ItNew", "ItTake", "ItPeek", "ItAdvance", "IterCb", "Ranges", "ConcLoad",
+	"ItNew", "ItTake", "ItPeek", "ItAdvance", "IterCb", "Ranges", "ConcLoad", "Stats", "String",
 }
 
 func profile(name string) Profile {
@@ -502,7 +502,7 @@ func profile(name string) Profile {
 	algq := []string{"AndCard", "OrCard", "Intersects", "Equals"}
 	agg := []string{"FastOr", "HeapOr", "ParOr", "ParHeapOr", "FastAnd", "ParAnd", "HeapXor", "AndAny"}
 	tr := []string{"FlipS", "AddOffset", "DenseRT", "BitSetRT"}
-	q := []string{"Contains", "IsEmpty", "Card", "Min", "Max", "Rank", "Select", "CardInRange", "IntersectsInterval", "ToArray", "ChecksumRT"}
+	q := []string{"Contains", "IsEmpty", "Card", "Min", "Max", "Rank", "Select", "CardInRange", "IntersectsInterval", "ToArray", "ChecksumRT", "Stats", "String"}
 	nb := []string{"NextValue", "PreviousValue", "NextAbsentValue", "PreviousAbsentValue"}
 	set(3, "Build")
 	set(1, "BitmapOf", "New")
@@ -745,7 +745,7 @@ func (g *Gen) next(e *Exec) Call {
 		c.X = g.slot()
 		c.C0, c.C1 = g.cellRange()
 		c.V = r.Intn(2)
-	case "Clear", "RunOptimize", "Detach", "IsEmpty", "Card", "Min", "Max":
+	case "Clear", "RunOptimize", "Detach", "IsEmpty", "Card", "Min", "Max", "Stats", "String":
 		c.X = g.slot()
 	case "ToArray":
 		c.X = g.slot()
